@@ -191,7 +191,12 @@ func ParseRtmpUrl(rawUrl string) (ctx UrlContext, err error) {
 	if strings.Count(ctx.PathWithRawQuery, "?") > 1 {
 		index := strings.LastIndexByte(ctx.PathWithRawQuery, '/')
 		ctx.Path = ctx.PathWithRawQuery
-		ctx.PathWithoutLastItem = ctx.PathWithRawQuery[1:index]
+		if index > 0 {
+			ctx.PathWithoutLastItem = ctx.PathWithRawQuery[1:index]
+		} else {
+			// 只有一级路径，比如 /vyun?vhost=thirdVhost?token=88F4
+			ctx.PathWithoutLastItem = ""
+		}
 		ctx.LastItemOfPath = ctx.PathWithRawQuery[index+1:]
 		ctx.RawQuery = ""
 	}
